@@ -127,12 +127,23 @@ def make_simu(kind: str, mesh, dim: int, thickness: float, dof_n: int = 1):
             return u.grad.ddot(v.grad) if dof_n > 1 else u.grad.dot(v.grad)
 
         simu = Simulations.WeakForms(mesh, Models.WeakForms(field, computeK, thickness=thickness))
+    elif kind == "phasefield":
+        # two problems in one simulation: the loads go to the displacement problem, named explicitly (`pt`)
+        mat = Models.Elastic.Isotropic(dim, E=3.0, v=0.25, planeStress=False, thickness=thickness)
+        simu = Simulations.PhaseField(mesh, Models.PhaseField(mat, "Miehe", "AT2", 1.0, 0.3, "History"))
+        simu._verif_pt = simu.ProblemTypes.elastic
+    elif kind == "hyperelastic":
+        simu = Simulations.HyperElastic(mesh, Models.HyperElastic.NeoHookean(dim, K=2.0, thickness=thickness))
     else:
         raise KeyError(kind)
-    return simu, list(simu.Get_unknowns()), (float(thickness) if dim == 2 else 1.0), kind
+    pt = getattr(simu, "_verif_pt", None)
+    return simu, list(simu.Get_unknowns(pt) if pt is not None else simu.Get_unknowns()), (float(thickness) if dim == 2 else 1.0), kind
 
 
 def neumann(simu, mesh):
+    pt = getattr(simu, "_verif_pt", None)
+    if pt is not None:
+        return np.asarray(simu.Bc_vector_Neumann(pt), float).reshape(mesh.Nn, simu.Get_dof_n(pt))
     dof_n = simu.Get_dof_n()
     return np.asarray(simu.Bc_vector_Neumann(), float).reshape(mesh.Nn, dof_n)
 
@@ -158,7 +169,7 @@ def recipe_any(draw, dims=("1d", "2d", "2d", "2d", "3d", "3d", "3d")):
 def lsv_cases(draw):
     r = draw(recipe_any())
     dim = gm.dim_of(r["elemType"])
-    sim = draw(st.sampled_from(["thermal", "weakforms"] if dim == 1 else ["elastic", "elastic", "thermal", "weakforms"]))
+    sim = draw(st.sampled_from(["thermal", "weakforms"] if dim == 1 else ["elastic", "elastic", "thermal", "weakforms", "phasefield", "hyperelastic"]))
     kind = "line" if dim == 1 else draw(st.sampled_from(["line", "surf", "surf", "vol"]))
     loads = []
     for _ in range(draw(st.integers(1, 3))):
@@ -225,6 +236,8 @@ def check_lsv(case, rec):
     ldim = 1 if kind == "line" else (dim - 1 if kind == "surf" else dim)
     fac = th if (dim == 2 and kind in ("surf", "vol")) else 1.0
     add = dict(line=simu.add_lineLoad, surf=simu.add_surfLoad, vol=simu.add_volumeLoad)[kind]
+    if getattr(simu, "_verif_pt", None) is not None:
+        add = (lambda f: (lambda nodes_, vals_, names_: f(nodes_, vals_, names_, problemType=simu._verif_pt)))(add)
 
     # region and selection
     ents = geo.regions(ldim)
@@ -609,3 +622,25 @@ SUBS = [
     Sub("pressure", check_pressure, gen=pressure_cases, quick=150, thorough=800, shards=4),
     Sub("beam_lineload", check_beam, gen=beam_cases, quick=250, thorough=1000, shards=4),
 ]
+
+
+# ------------------------------------------------------------------------------------------
+# (added) every face / edge of structured boxes of several sizes under a linear traction: the element subsets of the faces come
+# back from the selection in whatever order the library's sets iterate, and the load must not depend on it
+
+
+def enum_box_faces(tier):
+    k = 0
+    for et, dims in (("HEXA8", [(2, 2), (3, 2), (4, 3)]), ("HEXA20", [(3, 2)]), ("PRISM6", [(3, 2)]), ("QUAD4", [(4, 0), (6, 0)]), ("TRI6", [(4, 0)])):
+        for n, layers in dims:
+            d3 = layers > 0
+            L = float(n)
+            r = dict(verts=[[0.0, 0.0], [L, 0.0], [L, L - 1.0], [0.0, L - 1.0]], h=1.0, elemType=et, organised=True,
+                     extrude=[0.0, 0.0, float(layers)] if d3 else None, layers=layers, A=None, b=None, perm=None, orphans=0)
+            for region in range(6 if d3 else 4):
+                k += 1
+                yield dict(recipe=r, sim="elastic", dof_n=3 if d3 else 2, thickness=0.7, kind="surf" if d3 else "line", region=region, select=0,
+                           pollute=None, loads=[dict(comp=k % (3 if d3 else 2), form="func", deg=1, seed=k, cst=1)], O=[0.5, -1.0, 0.25])
+
+
+SUBS.append(Sub("box_faces", check_lsv, enum=enum_box_faces, doc="linear traction on every face / edge of structured boxes"))
